@@ -813,8 +813,15 @@ func runE4(p *Program, sp *Spec, c *Collector) {
 					if s := rc.sortAfter(name); s != "" {
 						colls = append(colls, name+" collected then sorted by "+s)
 					} else {
-						colls = append(colls, name+" is an unordered collection")
+						if why := rc.orderedConsumer(name); why != "" {
+							rc.bad = append(rc.bad, name+" is collected in map order, never sorted, and "+why)
+						}
+						colls = append(colls, name+" is an unordered collection (no order-sensitive consumer found)")
 					}
+				}
+				if len(rc.bad) > 0 {
+					c.Ob(props, "E4.map-range", key, Violated, "order-dependent: "+strings.Join(rc.bad, "; "), pos, false)
+					return true
 				}
 				sort.Strings(colls)
 				notes := dedupStrings(rc.notes)
@@ -1403,4 +1410,198 @@ func isLoopTest(iff *ssa.If, region map[*ssa.BasicBlock]bool) bool {
 		}
 	}
 	return false
+}
+
+
+// ---------------------------------------------------------------------------------------------
+// unordered collections: a slice filled in map order and never sorted is fine as a report ("identical as a collection"), but not
+// as the input of a first-match search whose result is the matched element: then the answer depends on the iteration order.
+
+// orderedConsumer follows the collection `name` (after the range statement) into own functions it is handed to — directly as an
+// argument, or through a package-level variable the callee stores it in — and reports a first-match search over it.
+func (rc *rangeCtx) orderedConsumer(name string) string {
+	why := ""
+	ast.Inspect(rc.fnDecl, func(n ast.Node) bool {
+		call, ok := n.(*ast.CallExpr)
+		if !ok || why != "" || call.Pos() < rc.rs.End() {
+			return true
+		}
+		for i, a := range call.Args {
+			if exprStr(a) != name {
+				continue
+			}
+			fn := rc.calleeOf(call)
+			if fn == nil || fn.Pkg() == nil || !strings.HasPrefix(fn.Pkg().Path(), modPath) {
+				continue
+			}
+			sf := rc.p.SSA.FuncValue(fn)
+			if sf == nil || len(sf.Blocks) == 0 {
+				continue
+			}
+			idx := i
+			if sf.Signature.Recv() != nil {
+				idx++
+			}
+			if idx < len(sf.Params) {
+				if w := rc.p.firstMatchThrough(sf, sf.Params[idx], 0, map[*ssa.Function]bool{}); w != "" {
+					why = "is handed to " + shortFn(rc.p.FuncKey(sf)) + " (" + rc.p.Pos(call.Pos()) + "): " + w
+				}
+			}
+		}
+		return true
+	})
+	return why
+}
+
+// firstMatchThrough: does a first-match search with an element-dependent result run over value x (a parameter of fn), in fn, in
+// an own callee x is passed to, or in any own function that reads a package-level variable x is stored in?
+func (p *Program) firstMatchThrough(fn *ssa.Function, x ssa.Value, depth int, seen map[*ssa.Function]bool) string {
+	if depth > 3 || seen[fn] {
+		return ""
+	}
+	seen[fn] = true
+	if w := p.firstMatchOver(fn, x); w != "" {
+		return w
+	}
+	refs := x.Referrers()
+	if refs == nil {
+		return ""
+	}
+	for _, r := range *refs {
+		switch in := r.(type) {
+		case *ssa.Store:
+			if in.Val != x {
+				continue
+			}
+			g, whole := globalOfAddr(in.Addr)
+			if g == nil || !whole {
+				continue
+			}
+			// every own function that loads g
+			for _, f := range p.OwnFuncs {
+				for _, b := range f.Blocks {
+					for _, ins := range b.Instrs {
+						if u, ok := ins.(*ssa.UnOp); ok && u.Op == token.MUL {
+							if gg, wh := globalOfAddr(u.X); gg == g && wh {
+								if w := p.firstMatchOver(f, u); w != "" {
+									return "it is kept in " + p.GlobalKey(g) + ", and " + w
+								}
+							}
+						}
+					}
+				}
+			}
+		case ssa.CallInstruction:
+			callee := in.Common().StaticCallee()
+			if callee == nil || callee.Pkg == nil || !p.Own[callee.Pkg.Pkg] || len(callee.Blocks) == 0 {
+				continue
+			}
+			for i, a := range in.Common().Args {
+				if a == x && i < len(callee.Params) {
+					if w := p.firstMatchThrough(callee, callee.Params[i], depth+1, seen); w != "" {
+						return w
+					}
+				}
+			}
+		}
+	}
+	return ""
+}
+
+// firstMatchOver: fn contains a loop over the elements of x that is left from inside its body, and a value returned after that
+// exit depends on the element (for _, e := range x { if P(e) { return e } }). A constant result (an existential test) is fine.
+func (p *Program) firstMatchOver(fn *ssa.Function, x ssa.Value) string {
+	elems := map[ssa.Value]bool{}
+	var elemBlocks []*ssa.BasicBlock
+	for _, b := range fn.Blocks {
+		for _, in := range b.Instrs {
+			switch e := in.(type) {
+			case *ssa.IndexAddr:
+				if e.X == x {
+					elems[e] = true
+					elemBlocks = append(elemBlocks, b)
+				}
+			case *ssa.Index:
+				if e.X == x {
+					elems[e] = true
+					elemBlocks = append(elemBlocks, b)
+				}
+			}
+		}
+	}
+	if len(elems) == 0 {
+		return ""
+	}
+	var dep func(v ssa.Value, seen map[ssa.Value]bool) bool
+	dep = func(v ssa.Value, seen map[ssa.Value]bool) bool {
+		if v == nil || seen[v] {
+			return false
+		}
+		seen[v] = true
+		if elems[v] {
+			return true
+		}
+		in, ok := v.(ssa.Instruction)
+		if !ok {
+			return false
+		}
+		if _, isPhi := v.(*ssa.Phi); isPhi {
+			for _, e := range v.(*ssa.Phi).Edges {
+				if dep(e, seen) {
+					return true
+				}
+			}
+			return false
+		}
+		for _, op := range in.Operands(nil) {
+			if *op != nil && dep(*op, seen) {
+				return true
+			}
+		}
+		return false
+	}
+	for _, loop := range naturalLoops(fn) {
+		h := loopHeader(loop)
+		inLoop := false
+		for _, b := range elemBlocks {
+			if loop[b] {
+				inLoop = true
+			}
+		}
+		if !inLoop {
+			continue
+		}
+		for u := range loop {
+			if u == h {
+				continue
+			}
+			for _, w := range u.Succs {
+				if loop[w] {
+					continue
+				}
+				// early exit u -> w: does a return reachable from w (outside the loop) depend on an element?
+				seenB := map[*ssa.BasicBlock]bool{}
+				stack := []*ssa.BasicBlock{w}
+				for len(stack) > 0 {
+					b := stack[len(stack)-1]
+					stack = stack[:len(stack)-1]
+					if seenB[b] || loop[b] {
+						continue
+					}
+					seenB[b] = true
+					for _, in := range b.Instrs {
+						if ret, ok := in.(*ssa.Return); ok {
+							for _, r := range ret.Results {
+								if dep(r, map[ssa.Value]bool{}) {
+									return shortFn(p.FuncKey(fn)) + " searches it for the first match and returns the matched element (" + p.InstrPos(ret) + "), so the result follows the map's iteration order"
+								}
+							}
+						}
+					}
+					stack = append(stack, b.Succs...)
+				}
+			}
+		}
+	}
+	return ""
 }
